@@ -197,6 +197,7 @@ fn main() {
     let mut reals: Vec<Vec<String>> = vec![];
     let mut raws: Vec<(Vec<String>, bool)> = vec![];
     let mut erase_of: Vec<Option<u64>> = vec![];
+    let mut oracles: Vec<Vec<String>> = vec![];
 
     if let Some(path) = &args.replay {
         let text = std::fs::read_to_string(path).expect("replay script");
@@ -206,6 +207,7 @@ fn main() {
         let ro = world::run_with(|_| { let l = lines.get(i).cloned(); i += 1; l }, erase);
         reals.push(ro.canon);
         raws.push((ro.raw, ro.settled));
+        oracles.push(ro.oracle);
         scripts.push((format!("replay:{path}"), lines));
         erase_of.push(erase);
     } else {
@@ -225,6 +227,7 @@ fn main() {
                     let ro = world::run_with(|_| { let l = lines.get(i).cloned(); i += 1; l }, erase);
                     reals.push(ro.canon);
                     raws.push((ro.raw, false));
+                    oracles.push(ro.oracle);
                     scripts.push((format!("corpus:{}", p.file_name().unwrap().to_string_lossy()), lines));
                     erase_of.push(erase);
                 }
@@ -240,6 +243,7 @@ fn main() {
             scripts.push((format!("{fam_name}:{seed}"), ro.script));
             reals.push(ro.canon);
             raws.push((ro.raw, ro.settled));
+            oracles.push(ro.oracle);
             erase_of.push(erase);
         }
     }
@@ -304,14 +308,21 @@ fn main() {
         .iter()
         .map(|i| format!("{{\"name\":{},\"script\":{},\"real_events\":{}}}", jstr(&scripts[*i].0), jarr(&scripts[*i].1), jarr(&reals[*i])))
         .collect();
+    // oracle failures concern the real crate alone and are reported apart from model disagreements
+    let oracle_failures: Vec<String> = (0..scripts.len())
+        .filter(|i| !oracles[*i].is_empty())
+        .take(20)
+        .map(|i| format!("{{\"script\":{},\"what\":{},\"full_script\":{}}}", jstr(&scripts[i].0), jarr(&oracles[i]), jarr(&scripts[i].1)))
+        .collect();
+    let n_oracle = oracles.iter().filter(|o| !o.is_empty()).count();
     let report = format!(
-        "{{\"scripts\":{},\"macro_steps\":{},\"distinct_nontrivial\":{},\"divergences\":[{}],\"ops\":{},\"events\":{},\"samples\":[{}]}}",
-        scripts.len(), total_steps, nontrivial, divergences.join(","), hist(&op_hist), hist(&ev_hist), samples.join(",")
+        "{{\"scripts\":{},\"macro_steps\":{},\"distinct_nontrivial\":{},\"divergences\":[{}],\"oracle_failures\":[{}],\"oracle_failed_scripts\":{},\"metrics_oracle\":{},\"ops\":{},\"events\":{},\"samples\":[{}]}}",
+        scripts.len(), total_steps, nontrivial, divergences.join(","), oracle_failures.join(","), n_oracle, cfg!(feature = "metrics"), hist(&op_hist), hist(&ev_hist), samples.join(",")
     );
     match &args.report {
         Some(p) => std::fs::write(p, &report).expect("report"),
         None => println!("{report}"),
     }
-    eprintln!("corr: scripts={} divergences={}", scripts.len(), divergences.len());
-    std::process::exit(if divergences.is_empty() { 0 } else { 3 });
+    eprintln!("corr: scripts={} divergences={} oracle_failures={}", scripts.len(), divergences.len(), n_oracle);
+    std::process::exit(if divergences.is_empty() && n_oracle == 0 { 0 } else { 3 });
 }
